@@ -653,6 +653,17 @@ pub fn fam_vecs(body: Body) -> Vec<Program> {
 				}
 			}
 		}
+		// a collection listing a zero-sized member (at the address of the lowest lock) first, against one without it
+		for k0 in KINDS {
+			for k1 in KINDS {
+				for (w0, w1) in [(true, true), (true, false)] {
+					if policy == Policy::WP && w0 && w1 {
+						continue;
+					}
+					out.push(Program { specs: vec![Spec::Native(Native::ZstFront(k0, true)), Spec::Native(Native::ZstFront(k1, false))], threads: vec![vec![acq(0, w0, Flavour::Guard, body)], vec![acq(1, w1, Flavour::Guard, body)]], policy, name: "V".into(), menu: vec![] });
+				}
+			}
+		}
 		// two unchecked collections over the same data
 		for k0 in KINDS {
 			for k1 in KINDS {
@@ -777,6 +788,70 @@ pub fn fam_kill(thorough: bool) -> Vec<Program> {
 							});
 						}
 					}
+				}
+			}
+		}
+	}
+	out
+}
+
+/// Family K2: a lock is killed through the safe `RawLock::poison` while other threads are in the middle of
+/// acquiring, holding or releasing it (or a collection containing it) in every flavour. Whatever the acquirers
+/// observe (a refusal, a panic, the lock), they end up holding either all of their target or nothing, and
+/// every hold they did get is given back.
+pub fn fam_kill2(thorough: bool) -> Vec<Program> {
+	let mut out = vec![];
+	let inside = Body { touch: true, yield_mid: true, panic: false, clear: false, rekey: false };
+	let quick = Body { touch: true, yield_mid: false, panic: false, clear: false, rekey: false };
+	let mut sets: Vec<Vec<Spec>> = vec![];
+	for leaf in [Spec::R(0), Spec::M(0)] {
+		sets.push(vec![leaf.clone(), leaf.clone()]);
+		for k in KINDS {
+			// the killed leaf first and last in the listing (for the retrying kind that is the acquisition order)
+			sets.push(vec![leaf.clone(), Spec::Coll(k, vec![leaf.clone(), Spec::R(1)])]);
+			sets.push(vec![leaf.clone(), Spec::Coll(k, vec![Spec::R(1), leaf.clone()])]);
+		}
+		if thorough {
+			sets.push(vec![leaf.clone(), Spec::Pois(Box::new(Spec::Coll(Kind::Boxed, vec![leaf.clone(), Spec::R(1)])))]);
+		}
+	}
+	sets.push(vec![Spec::PM(0), Spec::PM(0)]);
+	sets.push(vec![Spec::PR(0), Spec::PR(0)]);
+	let flavours: &[Flavour] = if thorough { &FLAVOURS } else { &[Flavour::Guard, Flavour::Try, Flavour::ScopedLent, Flavour::ScopedTryOwned] };
+	for specs in &sets {
+		for f in flavours {
+			for w in [true, false] {
+				if !w && !specs[1].sharable() {
+					continue;
+				}
+				// acquirer (a section with a scheduling point inside) || killer
+				out.push(Program { specs: specs.clone(), threads: vec![vec![acq(1, w, *f, inside)], vec![Step::Kill(0)]], policy: Policy::RP, name: "K2".into(), menu: vec![] });
+				// ... and with a holder of the other member, so that a try fails half-way / a blocking call has to wait
+				if specs[1].arena_leaves().contains(&(crate::world::R0 + 1)) {
+					let mut sp = specs.clone();
+					sp.push(Spec::R(1));
+					out.push(Program { specs: sp, threads: vec![vec![acq(1, w, *f, quick)], vec![Step::Kill(0)], vec![acq(2, true, Flavour::Guard, inside)]], policy: Policy::RP, name: "K2".into(), menu: vec![] });
+				}
+			}
+		}
+	}
+	out
+}
+
+/// Family R-kill (C09): a retrying acquisition whose first member is killed (safe `RawLock::poison`) while a later
+/// member is held by another thread: the back-off must still give the killed member back before it waits.
+pub fn fam_c09_kill() -> Vec<Program> {
+	let mut out = vec![];
+	let inside = Body { touch: true, yield_mid: true, panic: false, clear: false, rekey: false };
+	for first in [Spec::M(0), Spec::R(0)] {
+		for later in [Spec::R(1), Spec::M(1)] {
+			for f in [Flavour::Guard, Flavour::ScopedLent] {
+				for w in [true, false] {
+					let t = Spec::Coll(Kind::Retry, vec![first.clone(), later.clone()]);
+					if !w && !t.sharable() {
+						continue;
+					}
+					out.push(Program { specs: vec![t, first.clone(), later.clone()], threads: vec![vec![acq(0, w, f, Body::TOUCH)], vec![Step::Kill(1)], vec![acq(2, true, Flavour::Guard, inside)]], policy: Policy::RP, name: "R-kill".into(), menu: vec![] });
 				}
 			}
 		}
